@@ -16,8 +16,8 @@ def universe():
     for scheme in ("http", "https"):
         for port in ("", ":8080"):
             for host in ("x.com", "a.x.com", "x.co.uk"):
-                for path in ("", "/", "/a", "/a/", "/a/b"):
-                    for q in ("", "?q=1"):
+                for path in ("", "/", "/a", "/a/", "/a/b", "//a", "/a|b", "/a//b"):
+                    for q in ("", "?q=1", "?x|y"):
                         for f in ("", "#f"):
                             out.append(scheme + "://" + host + port + path + q + f)
     return out
@@ -66,16 +66,27 @@ def run(res, tier, rng):
                 ops.append(("set_lru", lru_stems(u), rng.choice([3, None])))
         cases.append(ops)
     cases.insert(0, [("set_lru", [], 7)])
+    orig = {}
+    for u in U:
+        for sa_ in (False, True):
+            st = lru_stems(u, suffix_aware=sa_)
+            orig[serialize_lru(st)] = st
     res.exhaustive = True
     for sa in (False, True):
         def stems_of(kind, x):
             if kind in ("set", "match"):
                 return lru_stems(x, suffix_aware=sa)
-            return unserialize_lru(x) if isinstance(x, str) else x
+            # a serialized LRU stands for the stem list it was serialized from (interchangeability is the claim)
+            return orig[x] if isinstance(x, str) else x
         qs_all = []
         enc = []
         for i, ops in enumerate(cases):
             qs = [("match", u) for u in (small if i < 3000 else rng.sample(U, 10))] + [("match_lru", serialize_lru(lru_stems(U[(i * 7) % len(U)], suffix_aware=sa)))] + [("match_lru", lru_stems(U[(i * 3) % len(U)], suffix_aware=sa))]
+            # the stored urls themselves, as url and as serialized LRU
+            for k_, x_, v_ in ops[:3]:
+                if k_ == "set":
+                    qs.append(("match", x_))
+                    qs.append(("match_lru", serialize_lru(lru_stems(x_, suffix_aware=sa))))
             qs_all.append(qs)
             enc.append([[[k, x, v] for k, x, v in ops], [[k, x] for k, x in qs]])
         chunks = [enc[i:i + 200] for i in range(0, len(enc), 200)]
@@ -107,7 +118,7 @@ def run(res, tier, rng):
                                   input=dict(ops=ops, suffix_aware=sa), impl={f: io[f] for f in bad}, model={f: mm[f] for f in bad})
     # variant tries: urls mapped to the same string by the variant's function are the same key
     spell = ["http://x.com/a", "HTTP://X.COM/a", "http://x.com:80/a", "http://x.com/a/", "x.com/a", "https://www.x.com/a?utm_source=t", "http://x.com/a#f",
-             "http://x.com/b/../a", "http://x.com/%61", "http://m.x.com/a/index.html", "http://x.com/a?b=1&a=2", "http://x.com/a?a=2&b=1", "https://fr.x.com:8080/A"]
+             "http://x.com/b/../a", "http://x.com/%61", "https://x.com/a", "//x.com/a", "x.com:443/a", "https://x.com:443/a/", "http://m.x.com/a/index.html", "http://x.com/a?b=1&a=2", "http://x.com/a?a=2&b=1", "https://fr.x.com:8080/A"]
     for cls, fn in ((CanonicalizedLRUTrie, canonicalize_url), (NormalizedLRUTrie, normalize_url), (FingerprintedLRUTrie, fingerprint_url)):
         for sa in (False, True):
             for u in spell:
@@ -123,12 +134,36 @@ def run(res, tier, rng):
                     if got != "hit":
                         res.violation("property", "%s: two urls with the same %s form are not the same key" % (cls.__name__, fn.__name__),
                                       input=dict(stored=u, query=v, suffix_aware=sa), impl=got, expected="hit")
+    # seeded structured bases with all their C02 spellings / C04 variants: colliding pairs must hit
+    from .url_grammar import gen_su, spelling_variants
+    from .C04 import irrelevant_variants
+    for _ in range(150 if tier == "quick" else 3000):
+        su = gen_su(rng, schemes=("http://", "https://", "", "//"))
+        group = [su.render()] + [v for name, v in spelling_variants(su, rng) if not name.startswith("pair:")] + [v for _, v in irrelevant_variants(su, rng)]
+        for cls, fn in ((CanonicalizedLRUTrie, canonicalize_url), (NormalizedLRUTrie, normalize_url), (FingerprintedLRUTrie, fingerprint_url)):
+            u = group[0]
+            fu = call(fn, u)
+            if isinstance(fu, Exc):
+                continue
+            sa = rng.random() < 0.5
+            t = cls(suffix_aware=sa)
+            if isinstance(call(t.set, u, "hit"), Exc):
+                continue
+            for v in group[1:]:
+                res.evaluations += 1
+                if call(fn, v) != fu:
+                    continue
+                got = call(t.match, v)
+                nontriv.add((cls.__name__, u, v))
+                if got != "hit":
+                    res.violation("property", "%s: two urls with the same %s form are not the same key" % (cls.__name__, fn.__name__),
+                                  input=dict(stored=u, query=v, suffix_aware=sa), impl=got, expected="hit")
     n1 = regexcorr.run(res, rng, names=REGEXES, exh_len=3, nrand=300 if tier == "quick" else 3000)
     res.evaluations += n1
     res.nontrivial = nontriv
-    res.rule = ("URL universe 2 schemes x 2 ports x 3 host chains x 5 path chains x query x fragment; every set-sequence of length <= %d over 14 of them, then seeded random sequences of set / "
+    res.rule = ("URL universe 2 schemes x 2 ports x 3 host chains x 8 path chains (empty segments, '|') x 3 queries x fragment; every set-sequence of length <= %d over 14 of them, then seeded random sequences of set / "
                 "set_lru (serialized and list form) with values incl. None; match on urls, match_lru on serialized and list LRUs; len and iteration; implementation vs dictionary oracle vs "
-                "extracted model; x suffix_aware; variant tries: every pair of 13 spellings with equal canonical / normalized / fingerprinted form must hit. "
+                "extracted model; x suffix_aware; variant tries: every pair of 17 spellings, and every C02 / C04 variant of seeded structured bases, with equal canonical / normalized / fingerprinted form must hit. "
                 "Non-trivial = histories with >= 2 operations, and colliding spelling pairs." % depth)
     res.sample(dict(ops=cases[30]))
     res.theorems = THEOREMS
